@@ -333,6 +333,10 @@ static inline int32_t timerlist_add_duration(struct timerlist *timerlist,
 	}
 
 	timer->expire_time = qb_util_nano_current_get() + nano_duration;
+	if (timer->expire_time < nano_duration) {
+		/* beyond the end of time: as late as it gets, not "long ago" */
+		timer->expire_time = UINT64_MAX;
+	}
 	timer->is_absolute_timer = QB_FALSE;
 	timer->data = data;
 	timer->timer_fn = timer_fn;
